@@ -127,6 +127,31 @@ static void order_case(void) {
       lp_polynomial_delete(twin);
       for (int t = 0; t < 3; ++t) emit_check(&o[t]);
     }
+    else if (k < 4 && chance(45)) {
+      /* arithmetic / gcd whose operands were created under the previous order and are first seen by this call
+         (tokens taken before the change: printing would re-order the external operands) */
+      sb_reset(); sb_poly(o[0].p); char* t0 = strdup(sb_buf);
+      sb_reset(); sb_poly(o[2].p); char* t2 = strdup(sb_buf);
+      order_mutate();
+      int swap = chance(50);
+      const lp_polynomial_t* A = swap ? o[2].p : o[0].p; const lp_polynomial_t* B = swap ? o[0].p : o[2].p;
+      lp_polynomial_t* R = lp_polynomial_new(octx[r]);
+      unsigned w = rnd(ri == 0 ? 4 : 3);
+      if (w == 3) {
+        lp_polynomial_gcd(R, A, B);
+        sb_begin("gcd", "gcd"); sb_sp(); hp_ring_token(ri); sb_sp(); sb_long(0); sb_sp(); sb_str(swap ? t2 : t0); sb_sp(); sb_str(swap ? t0 : t2); sb_sp(); sb_str("1"); sb_arrow();
+      } else {
+        if (w == 0) lp_polynomial_add(R, A, B); else if (w == 1) lp_polynomial_sub(R, A, B); else lp_polynomial_mul(R, A, B);
+        sb_begin("poly", w == 0 ? "add" : w == 1 ? "sub" : "mul"); sb_sp(); hp_ring_token(ri); sb_sp(); sb_str("f"); sb_sp(); sb_str(swap ? t2 : t0); sb_sp(); sb_str(swap ? t0 : t2); sb_arrow();
+      }
+      sb_sp(); sb_poly(R); sb_emit();
+      sb_begin("ord", "cleaned"); sb_sp(); sb_long(2 + (long)w); sb_arrow(); sb_sp(); sb_long(lp_polynomial_check_order(A)); sb_sp(); sb_long(lp_polynomial_check_order(B)); sb_emit();
+      free(t0); free(t2);
+      o[0].L = cur; o[2].L = cur;
+      { obj t; t.p = R; t.L = cur; t.external = 0; t.ri = ri; emit_check(&t); }
+      lp_polynomial_delete(R);
+      for (int t = 0; t < 3; ++t) emit_check(&o[t]);
+    }
     else if (k < 4) { order_mutate(); for (int i = 0; i < 3; ++i) emit_check(&o[i]); }
     else if (k < 6) { /* arithmetic under the current order */
       int i = (int)rnd(3), j = (int)rnd(3);
